@@ -1,5 +1,5 @@
 #!/bin/sh
-# setup_cmd: build the driver and warm the Go build cache for the worker (offline, from disk only).
+# setup_cmd: build the driver and warm the Go build cache for the workers (offline, from disk only).
 set -e
 D="$(cd "$(dirname "$0")" && pwd)"
 export GOTOOLCHAIN=local GOFLAGS=-mod=mod GOPROXY=off
@@ -8,5 +8,10 @@ command -v $GO >/dev/null 2>&1 || GO=/opt/veriftools/go1.26.8/bin/go
 mkdir -p "$D/bin" "$D/.build" "$D/evidence"
 (cd "$D/cmd/vcheck" && $GO build -o "$D/bin/vcheck" .)
 cp /repo/go.sum "$D/h/go.sum"
-(cd "$D/h" && $GO test -c -tags verif -vet=off -o "$D/.build/checks.test" ./checks)
+cd "$D/h"
+for pkg in $(ls -d */ | tr -d /); do
+  if ls $pkg/*_test.go >/dev/null 2>&1 && [ "$pkg" != "refimpl" ]; then
+    $GO test -c -tags verif -vet=off -o "$D/.build/$pkg.test" ./$pkg
+  fi
+done
 echo setup ok
